@@ -4,8 +4,8 @@
 (* xdsresource did on generated and mutated resources.  Events:            *)
 (*   eds / rds / cds / lds : ok (update returned), ok2 (second call), det  *)
 (*       (both calls gave equal results), zero (update empty when an error *)
-(*       is returned), sum (abstract summary of the accepted update, eds   *)
-(*       and rds only), has_in / in (the abstract input, unmutated eds)    *)
+(*       is returned), sum (abstract summary of the accepted update; eds,  *)
+(*       rds and lds), has_in / in (the abstract input; unmutated eds/lds) *)
 (*   panic : the unmarshal function panicked                               *)
 (***************************************************************************)
 EXTENDS XdsResource, TraceIO
@@ -34,10 +34,18 @@ CheckRDS(e) ==
   /\ (e.ok => /\ Mark(~R_PathMatcher(e.sum), "C45_RDS_RouteWithoutPathMatcher", l)
               /\ Mark(~R_Routes(e.sum), "C45_RDS_RouteAction", l))
 
+CheckLDS(e) ==
+  /\ Generic(e)
+  /\ (e.ok => /\ Mark(~L_Kind(e.sum), "C45_LDS_ListenerKind", l)
+              /\ Mark(~L_Filters(e.sum), "C45_LDS_HTTPFilterList", l)
+              /\ Mark(~L_Route(e.sum), "C45_LDS_RouteSpecifier", l))
+  /\ (e.has_in => Drift(e.ok # AcceptL(e.in), "C45_LDS_AcceptPrediction", l))
+
 Next == /\ l <= TLen /\ l' = l + 1 /\ Consumed(l)
         /\ CASE Ev.ev = "eds" -> CheckEDS(Ev)
              [] Ev.ev = "rds" -> CheckRDS(Ev)
-             [] Ev.ev \in {"cds", "lds"} -> Generic(Ev)
+             [] Ev.ev = "lds" -> CheckLDS(Ev)
+             [] Ev.ev = "cds" -> Generic(Ev)
              [] Ev.ev = "panic" -> Mark(TRUE, "C45_Panic", l)
              [] OTHER -> Ev.ev = "reset"
 ====
